@@ -14,6 +14,8 @@ from vlib.h_stores import TmpDir, env_plain, ev_key, freeze, handler_key, hq, pi
 
 import logging
 import os
+
+from pydantic import BaseModel
 import sqlite3
 
 from llama_agents.server._store.abstract_workflow_store import PersistentHandler
@@ -99,16 +101,16 @@ NOPS = B(3, 4)
 
 # ------------------------------------------------------------------------------------------------ op codes
 (UPSERT, STATUS, QUERY, DELETE, APPEND_EV, QUERY_EV, APPEND_TICK, GET_TICKS, STREAM_TICKS, LEGACY_CTX,
- S_SET, S_GET, S_SET_STATE, S_SEED_COPY, S_GET_STATE, S_CLEAR, S_SEED_MEM, S_GET_R1) = range(18)
-NCODES = 18
+ S_SET, S_GET, S_SET_STATE, S_SEED_COPY, S_GET_STATE, S_CLEAR, S_SEED_MEM, S_GET_R1, S_SET_STATE_BAD) = range(19)
+NCODES = 19
 FIRST_STATE_OP = S_SET            # op codes >= 10 go through a SqliteStateStore
-_R0_STATE = (S_SET, S_GET, S_SET_STATE, S_GET_STATE, S_CLEAR)   # ... of run r0 (the object that may be reused)
+_R0_STATE = (S_SET, S_GET, S_SET_STATE, S_GET_STATE, S_CLEAR, S_SET_STATE_BAD)   # ... of run r0 (the object that may be reused)
 
 
 def _core(o: int) -> bool:
     """the 12-code core pool used for the longest scripts of the thorough tier (drops stream_ticks, get_legacy_ctx, get_state, clear,
     seed-from-memory and the read of the seeded run: each shares its connection handling with a core op)"""
-    return o <= GET_TICKS or S_SET <= o <= S_SEED_COPY
+    return o <= GET_TICKS or S_SET <= o <= S_SEED_COPY or o == S_SET_STATE_BAD
 
 ASSUMES[0] = ASSUMES[0] % NCODES
 
@@ -116,6 +118,10 @@ ASSUMES[0] = ASSUMES[0] % NCODES
 # KF-C21-1 (known_findings.json) excludes exactly: a state-store operation (op code >= S_SET; each closes the connection it was
 # handed) that is followed by a further operation, or a final S_SET (set = load + save needs the connection twice).  Every other
 # script is still searched.
+
+
+class _Unrelated(BaseModel):
+    z: int = 0
 
 
 class _Ctx:
@@ -176,6 +182,9 @@ def _apply(c: _Ctx, o: int, pos: int):
         return None
     if o == S_CLEAR:
         drive(c.state().clear())
+        return None
+    if o == S_SET_STATE_BAD:  # an operation that FAILS in both modes (state of an unrelated type): what it leaves behind on the connection matters
+        drive(c.state().set_state(_Unrelated(z=pos)))
         return None
     if o == S_SEED_COPY:     # a new run's state store seeded from run r0's row (what a continued / resumed run does)
         st.create_state_store("r1", serialized_state={"store_type": "sqlite", "run_id": "r0"}, serializer=JsonSerializer())
